@@ -26,12 +26,14 @@ def make_lr(case):
   return case["lr"]
 
 
-def gen_grad(rng, shape, kind, t):
+def gen_grad(rng, shape, kind, t, gscale=1.0):
   n = int(np.prod(shape)) if len(shape) else 1
   if kind == "int":
     v = [float(rng.rint(-4, 4)) for _ in range(n)]
   elif kind == "zero_some" and rng.below(4) == 0:
     v = [0.0] * n
+  elif kind == "scale":
+    v = [rng.normal() * gscale for _ in range(n)]
   else:
     v = [rng.normal() for _ in range(n)]
   return np.asarray(v, np.float32).reshape(shape)
@@ -79,7 +81,8 @@ def run_case(case, jax, jnp, ds):
   steps = []
   names = sorted(params)
   for t in range(case["T"]):
-    grads = {k: jnp.asarray(gen_grad(rng, tuple(params[k].shape), case["hist"], t)) for k in names}
+    grads = {k: jnp.asarray(gen_grad(rng, tuple(params[k].shape), case["hist"], t,
+                                       case.get("gscale", 1.0))) for k in names}
     before = {k: leaf_state(state.stats[k]) for k in names}
     upd, new_state = opt.update(grads, state, params)
     after = {k: leaf_state(new_state.stats[k]) for k in names}
